@@ -49,18 +49,18 @@ type c16Case struct {
 	What    string   `json:"what,omitempty"`
 }
 
-type lockedBuf struct {
+type lsLockedBuf struct {
 	mu sync.Mutex
 	b  bytes.Buffer
 }
 
-func (l *lockedBuf) Write(p []byte) (int, error) {
+func (l *lsLockedBuf) Write(p []byte) (int, error) {
 	l.mu.Lock()
 	defer l.mu.Unlock()
 	return l.b.Write(p)
 }
 
-func sha256Hex(b []byte) string {
+func lsSha256Hex(b []byte) string {
 	s := sha256.Sum256(b)
 	return hex.EncodeToString(s[:])
 }
@@ -79,7 +79,7 @@ func validObject(unc bool, content []byte, idh string) bool {
 		}
 		plain = p
 	}
-	return sha256Hex(plain) == idh
+	return lsSha256Hex(plain) == idh
 }
 
 func canonicalID(rel string, unc bool) (string, bool) {
@@ -133,7 +133,7 @@ func (g *c16Gen) isDir(p string) bool {
 	return false
 }
 
-func upper(s string) string { return strings.ToUpper(s) }
+func lsUpper(s string) string { return strings.ToUpper(s) }
 
 func c16GenTree(rng *vh.Rand) *c16Gen {
 	g := &c16Gen{feat: map[string]bool{}, seen: map[string]bool{}}
@@ -146,8 +146,8 @@ func c16GenTree(rng *vh.Rand) *c16Gen {
 	for i := 0; i < k; i++ {
 		d, _ := vh.Blob(rng, 1+rng.Intn(48))
 		d = append(d, byte(i)) // distinct
-		cs = append(cs, ch{sha256Hex(d), d})
-		g.ids = append(g.ids, sha256Hex(d))
+		cs = append(cs, ch{lsSha256Hex(d), d})
+		g.ids = append(g.ids, lsSha256Hex(d))
 	}
 	obj := func(c ch, unc bool) []byte {
 		if unc {
@@ -217,14 +217,14 @@ func c16GenTree(rng *vh.Rand) *c16Gen {
 		case 8:
 			g.add(c.id+ext(unc), "f", obj(c, unc), "stray-root")
 		case 9:
-			g.add(upper(c.id[:4])+"/"+upper(c.id)+ext(unc), "f", obj(c, unc), "upper-case")
+			g.add(lsUpper(c.id[:4])+"/"+lsUpper(c.id)+ext(unc), "f", obj(c, unc), "upper-case")
 		case 10:
-			g.add(c.id[:4]+"/"+upper(c.id)+ext(unc), "f", obj(c, unc), "upper-case-file")
+			g.add(c.id[:4]+"/"+lsUpper(c.id)+ext(unc), "f", obj(c, unc), "upper-case-file")
 		case 11:
 			g.add([]string{"emptydir", hex.EncodeToString(rng.Bytes(2))}[rng.Intn(2)], "d", nil, "empty-dir")
 		case 12: // a chunk outside the universe, valid or garbage
 			d := rng.Bytes(1 + rng.Intn(20))
-			id := sha256Hex(d)
+			id := lsSha256Hex(d)
 			if rng.Bool() {
 				g.add(id[:4]+"/"+id+ext(unc), "f", obj(ch{id, d}, unc), "unknown-valid")
 			} else {
@@ -272,7 +272,7 @@ func c16Keep(rng *vh.Rand, ids []string) ([]string, string) {
 	}
 }
 
-func feats(m map[string]bool) []string {
+func lsFeats(m map[string]bool) []string {
 	var out []string
 	for k := range m {
 		out = append(out, k)
@@ -320,19 +320,19 @@ func c16RunPrune(a vh.Args, c *c16Case, dir string) (string, error) {
 		}
 		return "other", nil
 	}
-	s, err := localStore(dir, c.Unc, false)
+	s, err := lsLocalStore(dir, c.Unc, false)
 	if err != nil {
 		return "", err
 	}
 	perr := s.Prune(context.Background(), keep)
-	cl := errClass(perr)
+	cl := lsErrClass(perr)
 	if cl == "ok" {
 		cl = "nil"
 	}
 	return cl, nil
 }
 
-func inSet(l []string, x string) bool {
+func lsInSet(l []string, x string) bool {
 	for _, y := range l {
 		if y == x {
 			return true
@@ -343,7 +343,7 @@ func inSet(l []string, x string) bool {
 
 func c16Prune(a vh.Args, o *vh.Oracle, r *vh.Result, c *c16Case) error {
 	desync.Digest = desync.SHA256{}
-	dir, err := freshDir(a.Work, "prune")
+	dir, err := lsFreshDir(a.Work, "prune")
 	if err != nil {
 		return err
 	}
@@ -358,7 +358,7 @@ func c16Prune(a vh.Args, o *vh.Oracle, r *vh.Result, c *c16Case) error {
 	after, _ := snapshotTree(dir)
 	nontriv := false
 	for _, e := range before {
-		if id, ok := canonicalID(e.Path, c.Unc); ok && e.Kind == "f" && !inSet(c.Keep, id) {
+		if id, ok := canonicalID(e.Path, c.Unc); ok && e.Kind == "f" && !lsInSet(c.Keep, id) {
 			nontriv = true
 		}
 	}
@@ -391,7 +391,7 @@ func c16Prune(a vh.Args, o *vh.Oracle, r *vh.Result, c *c16Case) error {
 		if e.Kind != "d" && isTmpName(e.Path) {
 			continue
 		}
-		if id, ok := canonicalID(e.Path, c.Unc); ok && !inSet(c.Keep, id) {
+		if id, ok := canonicalID(e.Path, c.Unc); ok && !lsInSet(c.Keep, id) {
 			continue
 		}
 		switch {
@@ -399,7 +399,7 @@ func c16Prune(a vh.Args, o *vh.Oracle, r *vh.Result, c *c16Case) error {
 			fail("prune/removes-directory", "prune removed directory "+e.Path)
 		case func() bool { _, ok := canonicalID(e.Path, !c.Unc); return ok }():
 			fail("prune/removes-other-format", "prune removed a chunk of the other format: "+e.Path)
-		case func() bool { id, ok := canonicalID(e.Path, c.Unc); return ok && inSet(c.Keep, id) }():
+		case func() bool { id, ok := canonicalID(e.Path, c.Unc); return ok && lsInSet(c.Keep, id) }():
 			fail("prune/removes-referenced", "prune removed a referenced chunk: "+e.Path)
 		default:
 			fail("prune/removes-non-chunk", "prune removed a file that is neither a temp file nor an unreferenced chunk: "+e.Path)
@@ -419,7 +419,7 @@ func c16Prune(a vh.Args, o *vh.Oracle, r *vh.Result, c *c16Case) error {
 			if isTmpName(e.Path) {
 				fail("prune/leaves-temp-file", "prune returned nil but left the temp file "+e.Path)
 			}
-			if id, ok := canonicalID(e.Path, c.Unc); ok && !inSet(c.Keep, id) {
+			if id, ok := canonicalID(e.Path, c.Unc); ok && !lsInSet(c.Keep, id) {
 				fail("prune/leaves-unreferenced", "prune returned nil but left the unreferenced chunk "+e.Path)
 			}
 		}
@@ -431,7 +431,7 @@ func c16Prune(a vh.Args, o *vh.Oracle, r *vh.Result, c *c16Case) error {
 	if c.Backend == "sftp-model" {
 		cmd = "c16.sftpprune"
 	}
-	ans, err := o.Call(cmd, b01(c.Unc), hx([]byte(dir)), strings.Join(c.Keep, ","), encodeTree("s", before))
+	ans, err := o.Call(cmd, lsB01(c.Unc), lsHx([]byte(dir)), strings.Join(c.Keep, ","), encodeTree("s", before))
 	if err != nil {
 		return err
 	}
@@ -464,7 +464,7 @@ var (
 
 func c16Verify(a vh.Args, o *vh.Oracle, r *vh.Result, c *c16Case) error {
 	desync.Digest = desync.SHA256{}
-	dir, err := freshDir(a.Work, "verify")
+	dir, err := lsFreshDir(a.Work, "verify")
 	if err != nil {
 		return err
 	}
@@ -488,11 +488,11 @@ func c16Verify(a vh.Args, o *vh.Oracle, r *vh.Result, c *c16Case) error {
 			res = "other"
 		}
 	} else {
-		s, err := localStore(dir, c.Unc, false)
+		s, err := lsLocalStore(dir, c.Unc, false)
 		if err != nil {
 			return err
 		}
-		var w lockedBuf
+		var w lsLockedBuf
 		if verr := s.Verify(context.Background(), c.N, c.Repair, &w); verr != nil {
 			res = "other"
 		}
@@ -607,7 +607,7 @@ func c16Verify(a vh.Args, o *vh.Oracle, r *vh.Result, c *c16Case) error {
 		return nil
 	}
 	cmp := func(mode string) (string, error) {
-		ans, err := o.Call("c16.verify", mode, b01(c.Unc), b01(c.Repair), hx([]byte(dir)), encodeTree("s", before), decompTable(before))
+		ans, err := o.Call("c16.verify", mode, lsB01(c.Unc), lsB01(c.Repair), lsHx([]byte(dir)), encodeTree("s", before), decompTable(before))
 		if err != nil {
 			return "", err
 		}
@@ -715,7 +715,7 @@ func runC16(a vh.Args, o *vh.Oracle, r *vh.Result) error {
 	for k := 0; k < n; k++ {
 		g := c16GenTree(rng)
 		keep, tag := c16Keep(rng, g.ids)
-		c := &c16Case{Kind: "prune", Unc: rng.Bool(), Tree: g.ents, Keep: keep, KeepTag: tag, Feat: feats(g.feat)}
+		c := &c16Case{Kind: "prune", Unc: rng.Bool(), Tree: g.ents, Keep: keep, KeepTag: tag, Feat: lsFeats(g.feat)}
 		if thorough && os.Getenv("VH_DESYNC") != "" && k%20 == 0 {
 			c.CLI = true
 		}
@@ -725,7 +725,7 @@ func runC16(a vh.Args, o *vh.Oracle, r *vh.Result) error {
 		if err := c16Prune(a, o, r, c); err != nil {
 			return err
 		}
-		v := &c16Case{Kind: "verify", Unc: rng.Bool(), Tree: g.ents, Repair: rng.Bool(), N: []int{1, 2, 8}[rng.Intn(3)], Feat: feats(g.feat)}
+		v := &c16Case{Kind: "verify", Unc: rng.Bool(), Tree: g.ents, Repair: rng.Bool(), N: []int{1, 2, 8}[rng.Intn(3)], Feat: lsFeats(g.feat)}
 		if thorough && os.Getenv("VH_DESYNC") != "" && k%20 == 1 {
 			v.CLI = true
 		}
